@@ -275,6 +275,11 @@ class ProgGen:
                      and getattr(k, "tpl", None) is None]
             if bases and t.bool(0.65, "derive"):
                 c.parent = t.pick(bases, "base").qname
+        elif self.f.get("inheritance", True) and self.f.get("plain_derive", True) and t.bool(0.3, "plain-derive"):
+            # a class that has a parent without being declared `virtual` (parent virtual or not)
+            bases = [k for k in self.p.classes if len(self.p.ancestors(k)) < 2 and getattr(k, "tpl", None) is None]
+            if bases:
+                c.parent = t.pick(bases, "plain-base").qname
         self.p.classes.append(c)        # a class may refer to itself in its own signatures
         if self.f.get("enums", True) and (len(ns) < 2 or self.f.get("class_enum_nested")) and t.bool(0.15, "class-enum"):
             e = PEnum(t.pick(["Kind", "Mode"], "ename"), ns, t.shuffle(["Red", "Green", "Blue", "Dog"], "evals")[:3], owner=c)
@@ -380,6 +385,39 @@ class ProgGen:
                                             PArg(PType("class", made[2].qname, "sptr"), "leaf")])))
         self.p.functions.append(([], PFunc("func", self.fresh(["makeRoot", "giveBase"]),
                                            PType("class", root.qname, "sptr"), [])))
+
+    def force_plainchain(self):
+        """classes that have a parent without being `virtual`: derived from a virtual or a plain base, with a
+        method-less class declared between base and derived, two constructors, and objects of the derived
+        classes coming back from C++ (static factory, free function)"""
+        t = self.t
+        ns = [t.pick(NSN, "ns")] if t.bool(0.5, "pchain-ns") else []
+        base = PClass(self.fresh(["Shape", "Figure", "Item"]), ns)
+        base.virtual = t.bool(0.5, "pchain-base-virtual")
+        self.p.classes.append(base)
+        base.ctors.append(PFunc("ctor", base.name, None, self.args(1, allow_class=False)))
+        base.methods.append(PFunc("method", "area", PType("prim", "double"), self.args(1, allow_class=False), const=True))
+        filler = PClass(self.fresh(["Tag", "Mark", "Stamp"]), [])
+        self.p.classes.append(filler)
+        filler.ctors.append(PFunc("ctor", filler.name, None, []))
+        prev = base
+        for lvl in range(1 + t.choose(2, "pchain-depth")):
+            d = PClass(self.fresh(["Circle", "Square", "Blob", "Disc"]), ns if t.bool(0.7, "pchain-same-ns") else [])
+            d.virtual = False if lvl == 0 else t.bool(0.3, "pchain-virtual-leaf")
+            d.parent = prev.qname
+            self.p.classes.append(d)
+            d.ctors.append(PFunc("ctor", d.name, None, self.args(2, allow_class=False)))
+            if t.bool(0.5, "pchain-ctor2"):
+                d.ctors.append(PFunc("ctor", d.name, None, [PArg(PType("prim", "string"), "tag")]))
+            d.methods.append(PFunc("method", "radius%d" % lvl, PType("prim", "double"), [], const=True))
+            d.statics.append(PFunc("static", "Unit", PType("class", d.qname, t.pick(["sptr", "val"], "pchain-ret")),
+                                   [PArg(PType("prim", "int"), "n")]))
+            self.p.functions.append((ns, PFunc("func", self.fresh(["makeDisc", "giveBlob", "newSquare"]),
+                                               PType("class", d.qname, "sptr"), [])))
+            self.p.functions.append((ns, PFunc("func", self.fresh(["measure", "weigh", "probe"]), PType("prim", "double"),
+                                               [PArg(PType("class", base.qname, "cref"), "b"),
+                                                PArg(PType("class", d.qname, "sptr"), "d")])))
+            prev = d
 
     def force_enum_nested(self):
         self.force_enum(nested=True)
